@@ -299,3 +299,28 @@ Qed.
 Theorem pull_ack_ranges_fuel fuel count end_ acc bs : (length bs <= fuel)%nat ->
   pull_ack_ranges fuel count end_ acc bs = pull_ack_ranges (length bs) count end_ acc bs.
 Proof. intros L. apply pull_ack_ranges_fuel_eq; auto. Qed.
+
+(* ================= F13 in general: the declared extension_length of a KNOWN extension is never used ======== *)
+Definition len_blind (parse : Z -> Z -> list Z -> option (Res (list Z * list Z))) : Prop :=
+  forall ty len len' b, parse ty len b = parse ty len' b.
+
+Lemma parsers_len_blind :
+  len_blind parse_client_hello_ext /\ len_blind parse_server_hello_ext /\ len_blind parse_nst_ext /\
+  len_blind parse_ee_ext /\ len_blind parse_cr_ext.
+Proof. repeat split; intros ty len len' b; reflexivity. Qed.
+
+(* for every message, every known extension type and every two declared lengths: the extension item
+   decodes identically -- the body is delimited by its own structure only (the outer extensions
+   block is the only length that is checked) *)
+Theorem ext_length_ignored_general parse ch st ty len len' b :
+  len_blind parse -> parse ty len b <> None ->
+  0 <= ty < 65536 -> 0 <= len < 65536 -> 0 <= len' < 65536 ->
+  ext_item parse ch st (be_enc 2 ty ++ be_enc 2 len ++ b) =
+  ext_item parse ch st (be_enc 2 ty ++ be_enc 2 len' ++ b).
+Proof.
+  intros B K Hty Hl Hl'. unfold ext_item, pull_uint16.
+  destruct (ch && e_psk st); [reflexivity|].
+  rewrite !pull_be_roundtrip by (change (256 ^ Z.of_nat 2) with 65536; lia). cbn [bind].
+  rewrite !pull_be_roundtrip by (change (256 ^ Z.of_nat 2) with 65536; lia). cbn [bind].
+  rewrite (B ty len' len b). destruct (parse ty len b) as [r|]; [reflexivity|contradiction].
+Qed.
